@@ -1,4 +1,4 @@
-import PkgProofs.Lemmas.ReqParsed
+import PkgProofs.Lemmas.ReqClause
 /-!
 # C08 — Requirement parsing decomposes PEP 508 strings faithfully
 
@@ -236,4 +236,18 @@ theorem parsed_roundtrip (src : Str) (r : Requirement) (h : Req.parse src = .ok 
   · intro m hm
     obtain ⟨hf, hv, hn⟩ := w7 m hm
     exact ⟨⟨hf, fun a ha => C09.canonAtom_of a (hv a ha) (hlit m hm a ha)⟩, hn⟩
+
+/-- **every accepted requirement round-trips through its string**, the only hypothesis being that the marker's
+literals are written with PEP 508 string characters: whatever text `Requirement(src)` accepted — any white space
+layout, parenthesised clause list, any spelling of the clauses, of the variables, any order and repetition of extras —
+`Requirement(str(r))` succeeds, is equal to `r`, has the same hash key and the same string. -/
+theorem requirement_roundtrip (src : Str) (r : Requirement) (h : Req.parse src = .ok r)
+    (hlit : ∀ m, r.marker = some m → ∀ a ∈ MkParse.atomsL m, C09.LitOK a) :
+    ∃ r', Req.parse (Req.str r) = .ok r' ∧ Req.eq r' r = true ∧ Req.str r' = Req.str r ∧ Req.hashKey r' = Req.hashKey r := by
+  refine parsed_roundtrip src r h ?_ hlit
+  obtain ⟨P, spec, _, hs, _, _, _, hspec, _⟩ := parse_inv src r h
+  intro sp hsp
+  rw [hspec] at hsp
+  obtain ⟨_, c, _, hp⟩ := members_roundtrip _ _ hs sp hsp
+  exact ⟨ReqClause.ver_chars_of_parse c sp hp, ReqClause.tokExact_of_parse c sp hp⟩
 end C08
